@@ -13,6 +13,11 @@ address description:
 op:
     {"k":"write","addr":A,"val":V,"en":1|-1} | {"k":"read","addr":A,"n":N} | {"k":"restruct"} | {"k":"copy"}
     | {"k":"shift","zone":key,"off":d} | {"k":"merge","ops":[write ops]}
+    | {"k":"fork","m":src,"to":id}        a copy of live map src becomes live map id (src stays alive)
+    | {"k":"mergecopy","m":i,"src":j}     map i .merge( map j .copy() )
+  every op may carry "m": the id of the live map it addresses (default 0; map 0 exists from the start).
+  `normalize(ops)` drops operations that address a map that is not live (this keeps any sub-sequence of a
+  history meaningful, which the shrinker relies on) and renames ids to indices in creation order.
 The meaning of a value description, used by the model encoding and by the byte-store oracle alike:
 `value_bytes(vd)` = list of per-byte descriptors in VALUE order (least significant byte first),
 ["r", b] a concrete byte, ["s", id, k] byte k of register r<id>.
@@ -79,13 +84,38 @@ def model_addr(ad):
 
 def model_op(op):
     k = op["k"]
+    m = op.get("m", 0)
     if k == "write":
-        return {"k": "write", "addr": model_addr(op["addr"]), "val": model_value(op["val"]), "en": op["en"]}
+        return {"k": "write", "m": m, "addr": model_addr(op["addr"]), "val": model_value(op["val"]), "en": op["en"]}
     if k == "read":
-        return {"k": "read", "addr": model_addr(op["addr"]), "n": op["n"]}
+        return {"k": "read", "m": m, "addr": model_addr(op["addr"]), "n": op["n"]}
     if k == "merge":
-        return {"k": "merge", "ops": [model_op(o) for o in op["ops"]]}
+        return {"k": "merge", "m": m, "ops": [model_op(o) for o in op["ops"]]}
     return dict(op)
+
+
+def normalize(ops):
+    """(index-based ops, positions of the surviving ops in `ops`)."""
+    live = {0: 0}
+    out, pos = [], []
+    for n, op in enumerate(ops):
+        m = op.get("m", 0)
+        if m not in live:
+            continue
+        o = dict(op)
+        o["m"] = live[m]
+        if op["k"] == "fork":
+            if op["to"] in live:
+                continue
+            live[op["to"]] = len(live)
+            del o["to"]
+        elif op["k"] == "mergecopy":
+            if op["src"] not in live:
+                continue
+            o["src"] = live[op["src"]]
+        out.append(o)
+        pos.append(n)
+    return out, pos
 
 
 def resolve(ad):
@@ -113,6 +143,8 @@ class Gen(object):
         self.ck = ck
         self.nreg = 0
         self.seg = {}       # zone key -> list of (start, end, symbolic?) of the writes so far (not trimmed)
+        self.maps = {0: self.seg}   # live map id -> its picture; self.seg is the picture of the current map
+        self.cur = 0
 
     def count(self, k):
         if self.ck is not None:
@@ -310,10 +342,44 @@ class Gen(object):
             off = 0
         return {"k": "read", "addr": self.addr_desc(key, off), "n": n}
 
-    def history(self, nops):
+    def select(self):
+        """choose the live map the next operation addresses."""
         r = self.r
+        ids = list(self.maps)
+        if len(ids) > 1 and r.random() < 0.5:
+            self.cur = r.choice(ids)
+        self.seg = self.maps[self.cur]
+        return self.cur
+
+    def history(self, nops):
         ops = []
         for _ in range(nops):
+            n0 = len(ops)
+            m = self.select()
+            self.history_step(ops)
+            for o in ops[n0:]:
+                o.setdefault("m", m)
+        return ops
+
+    def history_step(self, ops):
+        r = self.r
+        if True:
+            c = r.random()
+            if self.seg and c < 0.07 and len(self.maps) < 4:
+                # keep the original alive next to its copy
+                self.count("op.fork")
+                to = max(self.maps) + 1
+                self.maps[to] = {k: list(v) for k, v in self.seg.items()}
+                ops.append({"k": "fork", "m": self.cur, "to": to})
+                return
+            if c < 0.10 and len(self.maps) > 1:
+                src = r.choice([i for i in self.maps if i != self.cur])
+                self.count("op.mergecopy")
+                for k, v in self.maps[src].items():
+                    self.seg.setdefault(k, []).extend(v)
+                    del self.seg[k][:-12]
+                ops.append({"k": "mergecopy", "m": self.cur, "src": src})
+                return
             c = r.random()
             if c < 0.55 or not self.seg:
                 c2 = r.random()
@@ -352,4 +418,3 @@ class Gen(object):
                 for k, v in sub.seg.items():
                     self.seg[k] = v
                 ops.append({"k": "merge", "ops": wops})
-        return ops
